@@ -170,6 +170,9 @@ def sym_bytearray(x=b""):
     if isinstance(x, SymBytes):
         snap = x.snapshot()
         return SymBytes("bytearray", length=x.length, content=snap)
+    if isinstance(x, SymInt):
+        # bytearray(n): n bytes (zero in reality; arbitrary here, which includes zero)
+        return SymBytes("bytearray", length=x.e)
     return bytearray(x)
 
 
@@ -251,6 +254,11 @@ class NPProxy:
             return r
         return np.prod(xs, *a, **k)
 
+    def zeros(self, shape, dtype=float, *a, **k):
+        if isinstance(shape, SymInt) and np.dtype(dtype).itemsize == 1:
+            return SymBytes("ndarray", length=shape.e)
+        return np.zeros(shape, dtype, *a, **k)
+
     def frombuffer(self, buf, dtype=float, count=-1, offset=0):
         if isinstance(buf, SymBytes):
             e = symx.engine()
@@ -325,6 +333,22 @@ def mkbuf(kind, native, ctx):
 NATIVE = {"BufferNumpy": "ndarray", "BufferByteArray": "bytearray"}
 
 
+def newbuf(kind, cap, ctx):
+    """a buffer made by the REAL constructor (so that whatever per-buffer state `__init__`/`_new_buffer` set up exists),
+    its storage being the symbolic container the patched bytearray()/np.zeros() hand out; falls back to a bare object
+    around a fresh container when the constructor does not produce one"""
+    cls = {"BufferNumpy": BufferNumpy, "BufferByteArray": BufferByteArray}[kind]
+    try:
+        b = cls(capacity=cap, context=ctx)
+        if isinstance(b.buffer, SymBytes) and b.buffer.kind == NATIVE[kind]:
+            return b, b.buffer
+    except Exception as ex:  # noqa
+        if not is_stub_gap(ex):
+            raise
+    native = SymBytes(NATIVE[kind], length=cap.e, name="dst")
+    return mkbuf(kind, native, ctx), native
+
+
 # --------------------------------------------------------------------------
 def harness(cfg):
     prim, kind, variant = cfg
@@ -339,10 +363,32 @@ def harness(cfg):
         slen = e.sym("slen", 0, BIG)
         p = T(e.fresh_int("p"))
         ctx = _Ctx("A")
-        native = SymBytes(NATIVE[kind], length=cap.e, name="dst")
-        pre = native.snapshot()
-        b = mkbuf(kind, native, ctx)
         extra = {}
+        grown = variant.endswith("+grown")
+        if grown:
+            # the primitive runs on a buffer that has GROWN before (real XBuffer.grow: new storage, old content copied):
+            # whatever the buffer object remembers about its storage must follow (M10-C13)
+            cap0, g = e.sym("cap0", 0, BIG), e.sym("g", 0, BIG)
+            extra.update(cap0=cap0, g=g)
+            e.assume(cap.e == cap0.e + g.e)
+            try:
+                b, native0 = newbuf(kind, cap0, ctx)
+                old = native0.snapshot()
+                b.grow(g)
+            except Exception as ex:  # noqa
+                if is_stub_gap(ex):
+                    raise symx.Inconclusive()
+                raise
+            native = b.buffer
+            if not isinstance(native, SymBytes):
+                raise symx.Inconclusive()
+            det0 = lambda m: {k: m.eval(v.e, model_completion=True).as_long() for k, v in extra.items()}
+            e.prove(native.length == cap.e, "grow: the new storage has the old capacity plus the requested amount", det0)
+            e.prove(z3.Implies(z3.And(0 <= p, p < cap0.e), native.at(p) == old(p)), "grow: the old content is carried over to the new storage", det0)
+        else:
+            b, native = newbuf(kind, cap, ctx)
+        pre = native.snapshot()
+        variant_ = variant[: -len("+grown")] if grown else variant
         det = lambda m: {k: m.eval(v.e, model_completion=True).as_long() for k, v in list((("cap", cap), ("off", off), ("n", n), ("so", so), ("slen", slen))) + list(extra.items())}
         inside_dst = z3.And(off.e >= 0, n.e >= 0, off.e + n.e <= cap.e)
         inside_src = z3.And(so.e >= 0, so.e + n.e <= slen.e)
@@ -358,7 +404,7 @@ def harness(cfg):
 
         try:
             if prim == "update_from_native":
-                if variant == "other":
+                if variant_ == "other":
                     src = SymBytes(NATIVE[kind], length=slen.e, name="src")
                     e.assume(z3.And(inside_dst, inside_src))
                     spre = src.snapshot()
@@ -384,9 +430,9 @@ def harness(cfg):
                 e.prove(z3.Implies(z3.And(0 <= p, p < cap.e), native.at(p) == pre(p)), f"{prim}: the buffer itself is not modified", det)
             elif prim == "update_from_buffer":
                 src = SymBytes("bytearray", length=n.e, name="pysrc")  # a Python bytes-like of n bytes
-                if variant.startswith("memoryview/"):
+                if variant_.startswith("memoryview/"):
                     # the .data of a NumPy array with items of k bytes (documented as a valid source): n bytes, n/k items
-                    k = int(variant.split("/")[1])
+                    k = int(variant_.split("/")[1])
                     src.itemsize = k
                     e.assume(n.e % k == 0)
                 spre = src.snapshot()
@@ -409,7 +455,7 @@ def harness(cfg):
                 e.prove(native.length == cap.e, f"{prim}: the buffer keeps its length", det)
             elif prim == "update_from_nplike":
                 # variant = "<source dtype>-><destination dtype>"
-                sdt, ddt = variant.split("->")
+                sdt, ddt = variant_.split("->")
                 cnt = e.sym("cnt", 0, BIG)
                 extra["cnt"] = cnt
                 SymNdLog.last = None
@@ -432,7 +478,7 @@ def harness(cfg):
                         det,
                     )
             elif prim in ("to_nplike", "to_nparray"):
-                dt, nd = variant.split("/")
+                dt, nd = variant_.split("/")
                 nd = int(nd)
                 dims = [e.sym(f"d{k}", 0, BIG) for k in range(nd)]
                 for k, d in enumerate(dims):
@@ -453,14 +499,14 @@ def harness(cfg):
                     e.prove(z3.BoolVal(r.shape is not None and len(r.shape) == nd and all(a is b_ for a, b_ in zip(r.shape, dims))), f"{prim}: the view has the requested shape", det)
                 e.prove(z3.Implies(z3.And(0 <= p, p < cap.e), native.at(p) == pre(p)), f"{prim}: the buffer is not modified", det)
             elif prim == "update_from_xbuffer":
-                skind = kind if variant.startswith("same") else ("BufferByteArray" if kind == "BufferNumpy" else "BufferNumpy")
-                sctx = ctx if variant == "same_context" else _Ctx("B")
-                snative = SymBytes(NATIVE[skind if variant != "same_context" else kind], length=slen.e, name="src")
-                sb = mkbuf(skind if variant != "same_context" else kind, snative, sctx)
+                skind = kind if variant_.startswith("same") else ("BufferByteArray" if kind == "BufferNumpy" else "BufferNumpy")
+                sctx = ctx if variant_ == "same_context" else _Ctx("B")
+                snative = SymBytes(NATIVE[skind if variant_ != "same_context" else kind], length=slen.e, name="src")
+                sb = mkbuf(skind if variant_ != "same_context" else kind, snative, sctx)
                 spre = snative.snapshot()
                 e.assume(z3.And(inside_dst, inside_src))
                 b.update_from_xbuffer(off, sb, so, n)
-                post_is(lambda q: spre(so.e + q - off.e), f"{prim} ({variant})")
+                post_is(lambda q: spre(so.e + q - off.e), f"{prim} ({variant_})")
                 e.prove(z3.Implies(z3.And(0 <= p, p < slen.e), snative.at(p) == spre(p)), f"{prim}: the source buffer is not modified", det)
                 e.prove(snative.length == slen.e, f"{prim}: the source buffer keeps its length", det)
         except Exception as ex:  # noqa
@@ -526,87 +572,172 @@ def validate_model():
 
 REPLAY = '''#!/usr/bin/env python
 """replay of a C13 counterexample on the real CPU buffers (exit 1 = property violated)"""
-import sys
-import numpy as np
-from xobjects.context_cpu import BufferNumpy, BufferByteArray, ContextCpu
+import os, sys
+if not sys.executable.startswith("/verif/.venv"):
+    os.execv("/verif/.venv/bin/python", ["/verif/.venv/bin/python"] + sys.argv)
+sys.path.insert(0, "/verif")
+from checks import prims
 CASE = {case}
-prim, kind, variant = CASE["cfg"]
-m = CASE["model"]
-cap, off, n, so, slen = (m.get(k, 0) for k in ("cap", "off", "n", "so", "slen"))
-if max(cap, slen) > (1 << 24): print("model too large to replay"); sys.exit(2)
-K = dict(BufferNumpy=BufferNumpy, BufferByteArray=BufferByteArray)
-def fill(b, c, salt):
-    for k in range(c): b.buffer[k] = (k * 7 + salt) % 120 + 1
-def img(b): return bytes(bytearray(b.buffer))
-def fail(msg): print("VIOLATED:", msg, "| case", CASE); sys.exit(1)
-ctx = ContextCpu()
-b = K[kind](capacity=cap, context=ctx); fill(b, cap, 3); pre = img(b)
-try:
-    if prim == "update_from_native":
-        if variant == "other":
-            s = K[kind](capacity=slen, context=ctx); fill(s, slen, 11); spre = img(s)
-            b.update_from_native(off, s.buffer, so, n)
-            exp = pre[:off] + spre[so:so + n] + pre[off + n:]
-            if img(s) != spre: fail("source modified")
-        else:
-            b.update_from_native(off, b.buffer, so, n)
-            exp = pre[:off] + pre[so:so + n] + pre[off + n:]
-        if img(b) != exp: fail("buffer content after update_from_native differs from the specification")
-    elif prim == "copy_to_native":
-        d = K[kind](capacity=slen, context=ctx); fill(d, slen, 11); dpre = img(d)
-        b.copy_to_native(d.buffer, so, off, n)
-        if img(d) != dpre[:so] + pre[off:off + n] + dpre[so + n:]: fail("destination content after copy_to_native differs from the specification")
-        if img(b) != pre: fail("buffer modified by copy_to_native")
-    elif prim == "update_from_buffer":
-        data = bytes((k * 5 + 1) % 250 for k in range(n))
-        if variant.startswith("memoryview/"):
-            src = np.frombuffer(data, dtype="i" + variant.split("/")[1]).data
-            b.update_from_buffer(off, src)
-        else:
-            b.update_from_buffer(off, data)
-        if len(bytearray(b.buffer)) != cap: fail("the buffer changed its length")
-        if img(b) != pre[:off] + data + pre[off + n:]: fail("buffer content after update_from_buffer differs from the specification")
-    elif prim in ("to_native", "to_bytearray", "to_pointer_arg"):
-        r = getattr(b, prim)(off, n)
-        if bytes(bytearray(r)) != pre[off:off + n]: fail(prim + " returned other bytes than requested")
-        if img(b) != pre: fail("buffer modified")
-        if prim != "to_pointer_arg" and n > 0:
-            r[0] = (int(r[0]) + 1) % 100
-            if img(b) != pre: fail(prim + " result aliases the buffer")
-    elif prim == "update_from_nplike":
-        sdt, ddt = variant.split("->")
-        cnt = m.get("cnt", 0)
-        if cnt > (1 << 22): print("model too large to replay"); sys.exit(2)
-        a = (np.arange(cnt) * 3 % 101 - 50).astype(sdt)
-        b.update_from_nplike(off, np.dtype(ddt), a)
-        data = a.astype(ddt).tobytes()
-        if img(b) != pre[:off] + data + pre[off + len(data):]: fail("buffer content after update_from_nplike differs from the specification")
-    elif prim in ("to_nplike", "to_nparray"):
-        dt, nd = variant.split("/")
-        dims = [m.get("d%d" % k, 0) for k in range(int(nd))]
-        tot = int(np.prod(dims)) if dims else 1
-        if tot > (1 << 22): print("model too large to replay"); sys.exit(2)
-        r = getattr(b, prim)(off, np.dtype(dt), dims)
-        isz = np.dtype(dt).itemsize
-        if list(r.shape) != list(dims) or r.dtype != np.dtype(dt): fail(prim + " returned another shape/dtype than requested")
-        if r.tobytes() != pre[off:off + tot * isz]: fail(prim + " does not show the buffer bytes at the requested offset")
-        if img(b) != pre: fail("buffer modified")
-        if tot > 0:
-            r.reshape(-1)[0] = r.reshape(-1)[0] + 1 if np.dtype(dt).kind != "f" else 1.5
-            now = img(b)
-            if now == pre or now[:off] != pre[:off] or now[off + isz:] != pre[off + isz:]: fail(prim + ": a write through the typed view does not change exactly the bytes of that element in the buffer")
-    elif prim == "update_from_xbuffer":
-        skind = kind if variant.startswith("same") else ("BufferByteArray" if kind == "BufferNumpy" else "BufferNumpy")
-        sctx = ctx if variant == "same_context" else ContextCpu()
-        s = K[skind if variant != "same_context" else kind](capacity=slen, context=sctx); fill(s, slen, 11); spre = img(s)
-        b.update_from_xbuffer(off, s, so, n)
-        if img(b) != pre[:off] + spre[so:so + n] + pre[off + n:]: fail("buffer content after update_from_xbuffer differs from the specification")
-        if img(s) != spre: fail("source buffer modified")
-except SystemExit: raise
-except Exception as ex:
-    fail(f"{{prim}} raised {{type(ex).__name__}}: {{str(ex)[:100]}}")
+r = prims.byte_case(CASE)
+if r == "skip": print("model too large to replay"); sys.exit(2)
+if r: print("VIOLATED:", r, "| case", CASE); sys.exit(1)
 print("property holds on this case"); sys.exit(0)
 '''
+
+
+class _Fail(Exception):
+    pass
+
+
+def byte_case(CASE):
+    """one primitive on REAL buffers of the given sizes against a bytes model; `+grown` variants first create the buffer
+    with capacity cap0 and let the real grow() enlarge it to cap.  -> failure text | None | "skip" """
+    from xobjects.context_cpu import ContextCpu
+
+    prim, kind, variant = CASE["cfg"]
+    m = CASE["model"] or {}
+    cap, off, n, so, slen = (int(m.get(k, 0)) for k in ("cap", "off", "n", "so", "slen"))
+    if max(cap, slen) > (1 << 24):
+        return "skip"
+    K = dict(BufferNumpy=BufferNumpy, BufferByteArray=BufferByteArray)
+
+    def fill(b, c, salt, lo=0):
+        for k in range(lo, c):
+            b.buffer[k] = (k * 7 + salt) % 120 + 1
+
+    def img(b):
+        return bytes(bytearray(b.buffer))
+
+    def fail(msg):
+        raise _Fail(msg)
+
+    ctx = ContextCpu()
+    try:
+        if variant.endswith("+grown"):
+            variant = variant[: -len("+grown")]
+            cap0 = min(int(m.get("cap0", cap // 2)), cap)
+            b = K[kind](capacity=cap0, context=ctx)
+            fill(b, cap0, 3)
+            first = img(b)
+            b.grow(cap - cap0)
+            if len(img(b)) != cap or img(b)[:cap0] != first:
+                fail("grow: the old content is not carried over / wrong new capacity")
+            fill(b, cap, 3, cap0)
+        else:
+            b = K[kind](capacity=cap, context=ctx)
+            fill(b, cap, 3)
+        pre = img(b)
+        if prim == "update_from_native":
+            if variant == "other":
+                s = K[kind](capacity=slen, context=ctx)
+                fill(s, slen, 11)
+                spre = img(s)
+                b.update_from_native(off, s.buffer, so, n)
+                exp = pre[:off] + spre[so : so + n] + pre[off + n :]
+                if img(s) != spre:
+                    fail("source modified")
+            else:
+                b.update_from_native(off, b.buffer, so, n)
+                exp = pre[:off] + pre[so : so + n] + pre[off + n :]
+            if img(b) != exp:
+                fail("buffer content after update_from_native differs from the specification")
+        elif prim == "copy_to_native":
+            d = K[kind](capacity=slen, context=ctx)
+            fill(d, slen, 11)
+            dpre = img(d)
+            b.copy_to_native(d.buffer, so, off, n)
+            if img(d) != dpre[:so] + pre[off : off + n] + dpre[so + n :]:
+                fail("destination content after copy_to_native differs from the specification")
+            if img(b) != pre:
+                fail("buffer modified by copy_to_native")
+        elif prim == "update_from_buffer":
+            data = bytes((k * 5 + 1) % 250 for k in range(n))
+            if variant.startswith("memoryview/"):
+                src = np.frombuffer(data, dtype="i" + variant.split("/")[1]).data
+                b.update_from_buffer(off, src)
+            else:
+                b.update_from_buffer(off, data)
+            if len(bytearray(b.buffer)) != cap:
+                fail("the buffer changed its length")
+            if img(b) != pre[:off] + data + pre[off + n :]:
+                fail("buffer content after update_from_buffer differs from the specification")
+        elif prim in ("to_native", "to_bytearray", "to_pointer_arg"):
+            r = getattr(b, prim)(off, n)
+            if bytes(bytearray(r)) != pre[off : off + n]:
+                fail(prim + " returned other bytes than requested")
+            if img(b) != pre:
+                fail("buffer modified")
+            if prim != "to_pointer_arg" and n > 0:
+                r[0] = (int(r[0]) + 1) % 100
+                if img(b) != pre:
+                    fail(prim + " result aliases the buffer")
+        elif prim == "update_from_nplike":
+            sdt, ddt = variant.split("->")
+            cnt = int(m.get("cnt", 0))
+            if cnt > (1 << 22):
+                return "skip"
+            a = (np.arange(cnt) * 3 % 101 - 50).astype(sdt)
+            b.update_from_nplike(off, np.dtype(ddt), a)
+            data = a.astype(ddt).tobytes()
+            if img(b) != pre[:off] + data + pre[off + len(data) :]:
+                fail("buffer content after update_from_nplike differs from the specification")
+        elif prim in ("to_nplike", "to_nparray"):
+            dt, nd = variant.split("/")
+            dims = [int(m.get("d%d" % k, 0)) for k in range(int(nd))]
+            tot = int(np.prod(dims)) if dims else 1
+            if tot > (1 << 22):
+                return "skip"
+            r = getattr(b, prim)(off, np.dtype(dt), dims)
+            isz = np.dtype(dt).itemsize
+            if list(r.shape) != list(dims) or r.dtype != np.dtype(dt):
+                fail(prim + " returned another shape/dtype than requested")
+            if r.tobytes() != pre[off : off + tot * isz]:
+                fail(prim + " does not show the buffer bytes at the requested offset")
+            if img(b) != pre:
+                fail("buffer modified")
+            if tot > 0:
+                r.reshape(-1)[0] = r.reshape(-1)[0] + 1 if np.dtype(dt).kind != "f" else 1.5
+                now = img(b)
+                if now == pre or now[:off] != pre[:off] or now[off + isz :] != pre[off + isz :]:
+                    fail(prim + ": a write through the typed view does not change exactly the bytes of that element in the buffer")
+        elif prim == "update_from_xbuffer":
+            skind = kind if variant.startswith("same") else ("BufferByteArray" if kind == "BufferNumpy" else "BufferNumpy")
+            sctx = ctx if variant == "same_context" else ContextCpu()
+            s = K[skind if variant != "same_context" else kind](capacity=slen, context=sctx)
+            fill(s, slen, 11)
+            spre = img(s)
+            b.update_from_xbuffer(off, s, so, n)
+            if img(b) != pre[:off] + spre[so : so + n] + pre[off + n :]:
+                fail("buffer content after update_from_xbuffer differs from the specification")
+            if img(s) != spre:
+                fail("source buffer modified")
+    except _Fail as f:
+        return str(f)
+    except Exception as ex:  # noqa
+        return f"{prim} raised {type(ex).__name__}: {str(ex)[:100]}"
+    return None
+
+
+def bytes_concrete(jobs):
+    """auxiliary, concrete: every byte primitive of the symbolic job list on real buffers with a few small sizes, with and
+    without a growth before the call (what the symbolic container cannot represent -- e.g. a memoryview kept by the
+    buffer object -- is observed here)"""
+    cases = []
+    for prim, kind, variant in jobs:
+        if prim in ("update_from_nplike", "to_nplike", "to_nparray"):
+            continue
+        for cap, cap0, off, n, so, slen in ((40, 16, 8, 16, 4, 32), (72, 24, 40, 24, 0, 24), (24, 0, 0, 24, 8, 40), (16, 16, 3, 0, 5, 9)):
+            if variant.startswith("memoryview/") and n % int(variant.split("/")[1].split("+")[0]):
+                continue
+            model = dict(cap=cap, cap0=cap0, off=off, n=n, so=min(so, max(0, (cap if variant.startswith("self") else slen) - n)), slen=max(slen, n))
+            for v in (variant, variant + "+grown") if not variant.endswith("+grown") else (variant,):
+                cases.append({"cfg": [prim, kind, v], "model": model})
+    return cases
+
+
+def _byte_case(c):
+    r = byte_case(c)
+    return None if r in (None, "skip") else r
 
 
 DTYPES = ["int8", "int16", "int32", "int64", "uint8", "uint16", "uint32", "uint64", "float32", "float64"]
@@ -702,6 +833,7 @@ def main(pid):
     jobs = []
     for kind in ("BufferNumpy", "BufferByteArray"):
         jobs += [("update_from_native", kind, "other"), ("update_from_native", kind, "self"), ("copy_to_native", kind, "-"), ("update_from_buffer", kind, "-"), ("to_native", kind, "-"), ("to_bytearray", kind, "-"), ("to_pointer_arg", kind, "-")]
+        jobs += [("update_from_native", kind, "other+grown"), ("copy_to_native", kind, "-+grown"), ("update_from_buffer", kind, "-+grown"), ("to_native", kind, "-+grown"), ("to_bytearray", kind, "-+grown"), ("update_from_xbuffer", kind, "same_context+grown")]
         jobs += [("update_from_buffer", kind, f"memoryview/{k}") for k in (2, 4, 8)]
         jobs += [("update_from_xbuffer", kind, v) for v in ("same_context", "other_context_same_kind", "other_context_other_kind")]
         # the NumPy half: offset/length arithmetic for every count and shape (conversion itself is stub S16)
@@ -720,6 +852,14 @@ def main(pid):
             sig = f"{cfg[0]}:{cex['obligation'].split(':')[-1].strip()[:60]}"
             model = cex.get("detail") or cex.get("model")
             rep.candidate(sig, f"{res['name']}: {cex['obligation']} with {json.dumps(model)}", REPLAY.format(case=repr({"cfg": list(cfg), "model": model})))
+    # auxiliary, concrete: the byte primitives on real buffers, fresh and after a growth
+    bcases = bytes_concrete(jobs)
+    bres = run_parallel(_byte_case, bcases)
+    for c, r in zip(bcases, bres):
+        if r:
+            rep.candidate(f"bytes:{c['cfg'][0]}:{'grown' if c['cfg'][2].endswith('+grown') else 'fresh'}:{r.split(':')[0][:50]}", f"{c['cfg']}: {r} with {json.dumps(c['model'])} (concrete observation on the real buffers, no solver verdict)", REPLAY.format(case=repr(c)))
+    rep.validated += len(bcases)
+    rep.extra["byte_primitive_concrete_cases"] = len(bcases)
     # auxiliary, concrete: dtype conversion and source layouts of the NumPy half on the real buffers
     ncases = numpy_concrete(tr)
     nres = run_parallel(_np_case, ncases)
